@@ -86,6 +86,23 @@ def sv(x):
     return z3.StringVal(x)
 
 
+class Term:
+    """z3 term kept in ghost state (compared structurally, so that state merging can compare ghosts)."""
+    __slots__ = ("t",)
+
+    def __init__(self, t):
+        self.t = t
+
+    def __eq__(self, o):
+        return isinstance(o, Term) and self.t.eq(o.t)
+
+    def __ne__(self, o):
+        return not self.__eq__(o)
+
+    def __hash__(self):
+        return self.t.hash()
+
+
 def spec_ole_enc(ole):
     return z3.Or([EX(ole, sv(n)) for n in OLE_ENC_STREAMS])
 
@@ -184,7 +201,7 @@ def m_ole_openstream(ex, st, obj, args, kwargs, node):
     ex.exc_any(st.fork(), f"{ex.loc(node)} OleFileIO.openstream")
     s = VExt("OleStream")
     a = args[0]
-    st.ghost[("olestream", s.t.get_id())] = (obj.t, a.t if isinstance(a, VStr) else z3.String(fresh_name("stream_name")))
+    st.ghost[("olestream", s.t.get_id())] = (Term(obj.t), Term(a.t if isinstance(a, VStr) else z3.String(fresh_name("stream_name"))))
     return [(st, s)]
 
 
@@ -194,7 +211,7 @@ def m_olestream_read(ex, st, obj, args, kwargs, node):
     key = st.ghost.get(("olestream", obj.t.get_id()))
     if key is None or args:
         return [(st, VUnk("bytes"))]
-    ole, name = key
+    ole, name = key[0].t, key[1].t
     st.assume(SLEN(ole, name) >= 0)
     if z3.is_string_value(name):
         st.ghost[("stream_read", name.as_string())] = True
@@ -441,6 +458,12 @@ class C08Executor(Executor):
         if h is not None:
             h(self, st, v, node)
 
+    def merge_states(self, states):
+        for s_ in states:          # stream positions (raw z3 terms, irrelevant here) are forgotten at joins
+            for k in [k for k in s_.ghost if isinstance(k, tuple) and k and k[0] == "pos"]:
+                del s_.ghost[k]
+        return super().merge_states(states)
+
     def ghost_join(self, key, a, b):
         if key in ("n_yields", "zip_reads") and isinstance(a, int) and isinstance(b, int):
             return max(a, b)
@@ -499,6 +522,7 @@ def detector_contracts(reg):
         note="verified by the C11 pack; here: the container view of the same bytes, or any exception"))
     out.append(FnContract(
         target=f"{ENC}::is_odf_encrypted", params=FL, modifies=("file_like",),
+        result_maker=lambda ex, st, ctx: VBool(z3.Bool(fresh_name("odf_encrypted"))),
         hyps=lambda c: xml_axiom(c.args["file_like"].t),
         ensures=[("encrypted-manifest-is-detected", lambda c: z3.Implies(spec_odf(c.args["file_like"].t), c.result.t)),
                  ("true-only-if-manifest-has-an-encryption-data-element", lambda c: z3.Implies(c.result.t, spec_odf(c.args["file_like"].t)))],
@@ -529,7 +553,9 @@ def doc_flag_set(c):
 
 
 def own(c):
-    return c.exc is not None and "site" not in c.exc.attrs
+    """The exception was raised by a `raise` statement of the function under contract itself
+    (not by a library model: `site`, nor by a contracted callee: `from_callee`)."""
+    return c.exc is not None and "site" not in c.exc.attrs and "from_callee" not in c.exc.attrs
 
 
 def is_enc_err(c):
@@ -597,6 +623,7 @@ def with_7z(ex, st, cm, phase):
         return None
     st.ghost["szf_enter_attempted"] = True
     f = st.ghost.get("the_7z_bytes")
+    f = f.t if f is not None else None
     bad = st.fork()
     if f is not None:
         b2 = st.fork().assume(HDRAES(f))
@@ -649,6 +676,17 @@ def m_cid_startswith(ex, st, obj, args, kwargs, node):
     return [(st, VBool(z3.PrefixOf(sv(cb.decode("latin-1")), BSTR(obj.t))))]
 
 
+def stash_input(c):
+    """requires-hook: remember the input bytes (entry value of `file_like`) in ghost state for the typestate VCs."""
+    c.st.ghost["input_bytes"] = Term(c.args["file_like"].t)
+    return z3.BoolVal(True)
+
+
+def input_of(st):
+    t = st.ghost.get("input_bytes")
+    return t.t if t is not None else None
+
+
 def n_yields(c):
     return c.st.ghost.get("n_yields", 0) + (1 if c.st.ghost.get("yield_count_unknown") else 0)
 
@@ -684,7 +722,7 @@ def archive_contracts(reg):
 
     t = f"{ARCH}::_extract_from_zip_optimized"
     cz = FnContract(
-        target=t, params=AP, generator=True, modifies=("file_like",),
+        target=t, params=AP, generator=True, modifies=("file_like",), requires=stash_input,
         ensures=[("completes-only-if-no-member-is-flagged", lambda c: z3.Not(spec_zip_enc(zf_of(c))))],
         raises=[Raises("Exception", sub=True)],
         exc_ensures=[("flagged-member-implies-encrypted-error-before-any-read-or-result", zip_if),
@@ -697,7 +735,7 @@ def archive_contracts(reg):
                   note=f"{ex.loc(node)} zf.read reachable while a flagged member may exist")
 
     def zip_on_yield(ex, st, v, node):
-        zf = ZIP_OF(st.frames[0].env["file_like"].t) if isinstance(st.frames[0].env.get("file_like"), VExt) else None
+        zf = ZIP_OF(input_of(st)) if input_of(st) is not None else None
         ex.add_vc("typestate", "no-result-before-every-flag-was-checked", st.pc,
                   z3.Not(spec_zip_enc(zf)) if zf is not None else z3.BoolVal(False), loc=ex.loc(node))
     cz.on_zip_read, cz.on_yield = zip_on_read, zip_on_yield
@@ -712,8 +750,8 @@ def archive_contracts(reg):
         return RV_OF(SZ_OF(f_of(c)))
 
     def z7_req(c):
-        c.st.ghost["the_7z_bytes"] = f_of(c)
-        return z3.BoolVal(True)
+        c.st.ghost["the_7z_bytes"] = Term(f_of(c))
+        return stash_input(c)
 
     def z7_only_if(c):
         return z3.Implies(z3.And(z3.BoolVal(own(c)), is_enc_err(c)), z3.Or(spec_7z_folders_enc(rv_of(c)), HDRAES(f_of(c))))
@@ -743,7 +781,7 @@ def archive_contracts(reg):
                   z3.And(z3.BoolVal(bool(st.ghost.get("needs_password_called"))), z3.Not(spec_7z_folders_enc(RV_OF(obj.t)))), loc=ex.loc(node))
 
     def z7_on_yield(ex, st, v, node):
-        f = st.ghost.get("the_7z_bytes")
+        f = st.ghost.get("the_7z_bytes").t
         ex.add_vc("typestate", "no-result-before-needs_password-returned-false", st.pc,
                   z3.And(z3.BoolVal(bool(st.ghost.get("needs_password_called"))), z3.Not(spec_7z_folders_enc(RV_OF(SZ_OF(f))))), loc=ex.loc(node))
     c7.on_extractall, c7.on_yield = z7_on_extractall, z7_on_yield
@@ -790,6 +828,235 @@ def archive_contracts(reg):
     return out
 
 
+# ---- EPUB: encryption.xml / rights.xml ---------------------------------------
+EpubCtx = ext_sort("EpubContext")
+Xml = ext_sort("XmlElem")
+CTX_OF = z3.Function("epub_context_of", BytesIO, EpubCtx)
+CEX = z3.Function("epub_member_exists", EpubCtx, S, B)
+ROOT = z3.Function("epub_xml_root", EpubCtx, S, Xml)
+NED = z3.Function("xml_num_EncryptedData", Xml, I)            # EncryptedData descendants (xmlenc namespace)
+EDAT = z3.Function("xml_EncryptedData", Xml, I, Xml)
+ALGO = z3.Function("xmlenc_EncryptionMethod_Algorithm", Xml, S)
+XMLENC_ED_PATH = ".//{http://www.w3.org/2001/04/xmlenc#}EncryptedData"
+FONT_OBFUSCATION = ("http://www.idpf.org/2008/embedding", "http://ns.adobe.com/pdf/enc#RC")   # EPUB OCF 3 §4.4 / Adobe font mangling
+ENCXML, RIGHTS = "META-INF/encryption.xml", "META-INF/rights.xml"
+
+
+def spec_epub_drm(ctx):
+    """DRM-protected: a rights.xml, or an encryption.xml entry that is real encryption (font obfuscation is not: the OCF
+    spec defines it as a reversible mangling of font files only; all content documents stay readable)."""
+    root = ROOT(ctx, sv(ENCXML))
+    j = z3.Int("j!epub")
+    real = z3.Exists([j], z3.And(j >= 0, j < NED(root), z3.And([ALGO(EDAT(root, j)) != sv(a) for a in FONT_OBFUSCATION])))
+    return z3.Or(CEX(ctx, sv(RIGHTS)), z3.And(CEX(ctx, sv(ENCXML)), real))
+
+
+def m_ctx_exists(ex, st, obj, args, kwargs, node):
+    a = args[0]
+    return [(st, VBool(CEX(obj.t, a.t) if isinstance(a, VStr) else z3.Bool(fresh_name("exists"))))]
+
+
+def m_ctx_read_xml_root(ex, st, obj, args, kwargs, node):
+    bad = st.fork()
+    bad.ghost["xml_unreadable"] = True
+    ex.exc_any(bad, f"{ex.loc(node)} read_xml_root")
+    a = args[0]
+    if not isinstance(a, VStr):
+        return [(st, VUnk("xml"))]
+    return [(st, VExt("XmlElem", ROOT(obj.t, a.t)))]
+
+
+def m_xml_findall(ex, st, obj, args, kwargs, node):
+    """Element.findall(path): ASSUMED ElementTree semantics for the one path used: all EncryptedData descendants."""
+    a = args[0].const() if args and isinstance(args[0], VStr) else None
+    if a != XMLENC_ED_PATH:
+        return ex.havoc_call(st, "Element.findall", args, node)
+    st.assume(NED(obj.t) >= 0)
+    return [(st, VSeq(NED(obj.t), lambda j: VExt("XmlElem", EDAT(obj.t, j)), "XmlElem"))]
+
+
+def new_epub_ctx(ex, st, args, kwargs, node):
+    ex.exc_any(st.fork(), f"{ex.loc(node)} _EpubContext()")
+    f = _fl(args[0]) if args else None
+    return [(st, VExt("EpubContext", CTX_OF(f.t)) if f is not None else VExt("EpubContext"))]
+
+
+def epub_contracts(reg):
+    reg.method_models[("EpubContext", "exists")] = m_ctx_exists
+    reg.method_models[("EpubContext", "read_xml_root")] = m_ctx_read_xml_root
+    reg.method_models[("EpubContext", "close")] = lambda ex, st, o, a, k, n: [(st, NONE)]     # ASSUMED total
+    reg.method_models[("XmlElem", "findall")] = m_xml_findall
+    reg.ext_models[("new", "_EpubContext")] = new_epub_ctx
+
+    def readable(c):
+        return z3.BoolVal(not c.st.ghost.get("xml_unreadable"))
+    return [FnContract(
+        target=f"{EPUB}::_is_epub_encrypted", params=[("ctx", p_ext("EpubContext"))], raises=[],
+        result_maker=lambda ex, st, ctx: VBool(z3.Bool(fresh_name("epub_encrypted"))),
+        ensures=[("drm-protected-epub-is-detected", lambda c: z3.Implies(z3.And(readable(c), spec_epub_drm(c.args["ctx"].t)), c.result.t)),
+                 ("true-only-if-drm-protected", lambda c: z3.Implies(c.result.t, spec_epub_drm(c.args["ctx"].t)))],
+        note="EPUB: rights.xml, or encryption.xml with an EncryptedData entry that is not font obfuscation")]
+
+
+# ---- PDF: decrypt("") ----------------------------------------------------------
+PdfR = ext_sort("PdfReader")
+READER_OF = z3.Function("pdf_reader_of", BytesIO, PdfR)
+PENC = z3.Function("pdf_is_encrypted", PdfR, B)
+DEC = z3.Function("pdf_decrypt_empty_password_result", PdfR, I)      # 0 = neither user nor owner password
+
+
+def new_pdfreader(ex, st, args, kwargs, node):
+    ex.exc_any(st.fork(), f"{ex.loc(node)} PdfReader()")
+    f = _fl(args[0]) if args else None
+    return [(st, VExt("PdfReader", READER_OF(f.t)) if f is not None else VExt("PdfReader"))]
+
+
+def m_pdf_decrypt(ex, st, obj, args, kwargs, node):
+    """PdfReader.decrypt(pw): ASSUMED to raise anything or return 0 (password rejected) / 1 / 2."""
+    pw = args[0].const() if args and isinstance(args[0], VStr) else None
+    bad = st.fork()
+    bad.ghost["decrypt_raised"] = True
+    bad.ghost["decrypt_called_on"] = Term(obj.t) if pw == "" else None
+    ex.exc_any(bad, f"{ex.loc(node)} PdfReader.decrypt")
+    st.ghost["decrypt_called_on"] = Term(obj.t) if pw == "" else None
+    if pw != "":
+        return [(st, VInt(z3.Int(fresh_name("decrypt"))))]
+    return [(st, VInt(DEC(obj.t)))]
+
+
+def m_pdf_pages(ex, st, obj):
+    h = getattr(ex.contract, "on_pages", None)
+    if h is not None:
+        h(ex, st, obj)
+    return VUnk("pages")
+
+
+def pdf_contracts(reg):
+    for k in ("pypdf.PdfReader", "PdfReader"):
+        reg.ext_models[("new", k)] = new_pdfreader
+    reg.attr_models[("PdfReader", "is_encrypted")] = lambda ex, st, o: VBool(PENC(o.t))
+    reg.attr_models[("PdfReader", "pages")] = m_pdf_pages
+    reg.method_models[("PdfReader", "decrypt")] = m_pdf_decrypt
+    out = []
+    t = f"{PDF}::_open_pdf_reader"
+    out.append(FnContract(
+        target=t, params=[("file_like", p_ext("BytesIO"))], modifies=("file_like",),
+        returns=lambda c: (c.st.ghost.__setitem__("reader_opened", True), VExt("PdfReader", READER_OF(c.args["file_like"].t)))[1],
+        raises=[Raises("Exception", sub=True)],
+        note="a reader over the given bytes (retry with the built-in AES after a DependencyError)"))
+    EXECUTOR_KW[t] = {"abstract": True, "inline_calls": False}
+
+    def R(c):
+        return READER_OF(c.args["file_like"].t)
+
+    def needs_pw(c):
+        return z3.And(PENC(R(c)), DEC(R(c)) == 0)
+
+    def same_reader(st, r):
+        d = st.ghost.get("decrypt_called_on")
+        return d is not None and d.t.eq(r)
+
+    def pdf_only_if(c):
+        g = c.st.ghost
+        return z3.Implies(z3.And(z3.BoolVal(own(c)), is_enc_err(c)),
+                          z3.And(PENC(R(c)), z3.BoolVal(same_reader(c.st, R(c))), z3.Or(DEC(R(c)) == 0, z3.BoolVal(bool(g.get("decrypt_raised"))))))
+
+    def pdf_if(c):
+        return z3.Implies(z3.And(z3.BoolVal(bool(c.st.ghost.get("reader_opened"))), needs_pw(c)),
+                          z3.And(z3.BoolVal(own(c)), is_enc_err(c), z3.BoolVal(n_yields(c) == 0)))
+
+    t = f"{PDF}::read_pdf"
+    cp = FnContract(
+        target=t, params=[("file_like", p_ext("BytesIO")), ("path", p_opt(p_str()))], generator=True, modifies=("file_like",),
+        requires=stash_input,
+        ensures=[("completes-only-if-empty-password-opens-it", lambda c: z3.Not(needs_pw(c)))],
+        raises=[Raises("Exception", sub=True)],
+        exc_ensures=[("password-needed-implies-encrypted-error-before-any-result", pdf_if),
+                     ("encrypted-error-only-if-encrypted-and-empty-password-rejected", pdf_only_if)],
+        note="PDF: is_encrypted and decrypt('') == 0 (or decrypt fails) <=> file-encrypted error; pages come from the same reader")
+
+    def checked(ex, st, r):
+        return z3.And(z3.Not(z3.And(PENC(r), DEC(r) == 0)), z3.Implies(PENC(r), z3.BoolVal(same_reader(st, r) and not st.ghost.get("decrypt_raised"))))
+
+    def pdf_on_yield(ex, st, v, node):
+        f = input_of(st)
+        ex.add_vc("typestate", "no-result-before-the-decrypt-check", st.pc,
+                  checked(ex, st, READER_OF(f)) if f is not None else z3.BoolVal(False), loc=ex.loc(node))
+
+    def pdf_on_pages(ex, st, obj):
+        f = input_of(st)
+        ok = f is not None and obj.t.eq(READER_OF(f))
+        ex.add_vc("dataflow", "pages-are-read-from-the-reader-that-passed-the-decrypt-check", st.pc,
+                  z3.And(z3.BoolVal(ok), checked(ex, st, obj.t)) if ok else z3.BoolVal(False))
+    cp.on_yield, cp.on_pages = pdf_on_yield, pdf_on_pages
+    EXECUTOR_KW[t] = {"abstract": True, "inline_calls": False, "merge_after_check": True}
+    out.append(cp)
+    return out
+
+
+# ---- typestate: detector first, True => encrypted error, before any result ------
+MSM = X + "ms_modern/"
+MSL = X + "ms_legacy/"
+OO = X + "open_office/"
+EXTRACTORS = [   # (file, generator, detector contract target, spec over the input bytes)
+    (MSM + "docx_extractor.py", "read_docx", f"{ENC}::is_ooxml_encrypted", spec_ooxml),
+    (MSM + "pptx_extractor.py", "read_pptx", f"{ENC}::is_ooxml_encrypted", spec_ooxml),
+    (MSM + "xlsx_extractor.py", "read_xlsx", f"{ENC}::is_ooxml_encrypted", spec_ooxml),
+    (MSL + "xls_extractor.py", "read_xls", f"{ENC}::is_xls_encrypted", spec_xls),
+    (MSL + "ppt_extractor.py", "read_ppt", f"{ENC}::is_ppt_encrypted", spec_ppt),
+    (OO + "odt_extractor.py", "read_odt", f"{ENC}::is_odf_encrypted", spec_odf),
+    (OO + "ods_extractor.py", "read_ods", f"{ENC}::is_odf_encrypted", spec_odf),
+    (OO + "odp_extractor.py", "read_odp", f"{ENC}::is_odf_encrypted", spec_odf),
+    (OO + "odg_extractor.py", "read_odg", f"{ENC}::is_odf_encrypted", spec_odf),
+    (OO + "odf_extractor.py", "read_odf", f"{ENC}::is_odf_encrypted", spec_odf),
+    (EPUB, "read_epub", f"{EPUB}::_is_epub_encrypted", lambda f: spec_epub_drm(CTX_OF(f))),
+]
+
+
+def mark_detector(c):
+    """Ghost: the detector has returned (evaluated at call sites only through `ensures`)."""
+    c.st.ghost["detector_returned"] = c.st.ghost.get("detector_returned", 0) + 1
+    return z3.BoolVal(True)
+
+
+def typestate_contracts(reg, detectors):
+    out = []
+    for d in detectors:
+        if d.target.split("::")[0] in (ENC, EPUB) and "encrypted" in d.target and "_has_ole" not in d.target:
+            if d.returns is not None:
+                d.returns = (lambda r: (lambda c: (mark_detector(c), r(c))[1]))(d.returns)
+            else:
+                d.result_maker = (lambda r: (lambda ex, st, ctx: (mark_detector(ctx), r(ex, st, ctx))[1]))(d.result_maker)
+    for (rel, fn, _det, spec) in EXTRACTORS:
+        def mk(rel=rel, fn=fn, spec=spec):
+            def sp(c):
+                return spec(c.args["file_like"].t)
+
+            def ret(c):
+                return z3.BoolVal(bool(c.st.ghost.get("detector_returned")))
+
+            def on_yield(ex, st, v, node):
+                f = input_of(st)
+                ex.add_vc("typestate", "no-result-before-the-detector-said-not-encrypted", st.pc,
+                          z3.And(z3.BoolVal(bool(st.ghost.get("detector_returned"))), z3.Not(spec(f))) if f is not None else z3.BoolVal(False),
+                          loc=ex.loc(node), note=f"{ex.loc(node)} yield reachable without a negative detector result")
+            c = FnContract(
+                target=f"{rel}::{fn}", params=[("file_like", p_ext("BytesIO")), ("path", p_opt(p_str()))], generator=True,
+                modifies=("file_like",), requires=stash_input,
+                ensures=[("completes-only-if-not-encrypted", lambda c: z3.And(ret(c), z3.Not(sp(c))))],
+                raises=[Raises("Exception", sub=True)],
+                exc_ensures=[("detector-true-implies-encrypted-error-before-any-result",
+                              lambda c: z3.Implies(z3.And(ret(c), sp(c)), z3.And(z3.BoolVal(own(c)), is_enc_err(c), z3.BoolVal(n_yields(c) == 0)))),
+                             ("encrypted-error-only-if-detector-true",
+                              lambda c: z3.Implies(z3.And(z3.BoolVal(own(c)), is_enc_err(c)), z3.And(ret(c), sp(c))))],
+                note="every path to the first yield passes the detector; a True result raises the file-encrypted error")
+            c.on_yield = on_yield
+            EXECUTOR_KW[c.target] = {"abstract": True, "inline_calls": False, "merge_after_check": True}
+            return c
+        out.append(mk())
+    return out
+
+
 def contracts(reg):
     install_container_models(reg)
     install_archive_models(reg)
@@ -797,6 +1064,9 @@ def contracts(reg):
     out += detector_contracts(reg)
     out += doc_contracts(reg)
     out += archive_contracts(reg)
+    out += epub_contracts(reg)
+    out += pdf_contracts(reg)
+    out += typestate_contracts(reg, out)
     return out
 
 
